@@ -163,10 +163,21 @@ def run_property(mod, tier, seed, max_seconds=None, replay=None):
         if d is not None and d >= agg['dev'] and not res.get('skipped'):
             agg['dev'] = float(d)
             agg['worst'] = sample
+        dg = None
         for sig, msg in res['viol']:
-            if sig not in viols:
-                viols[sig] = [case, msg, 0]
-            viols[sig][2] += 1
+            # a violation is a listed finding if its signature or its case is listed; decided per violating case,
+            # so that an unlisted case is never hidden behind a listed one with the same signature
+            if dg is None:
+                dg = digest(case)
+            hit = None
+            for key, what in known:
+                if key == 'case:' + dg or key == 'sig:' + sig:
+                    hit = what
+                    break
+            k = (sig, hit)
+            if k not in viols:
+                viols[k] = [case, msg, 0]
+            viols[k][2] += 1
 
     if replay or NPROC == 1:
         _init_worker(modname)
@@ -197,13 +208,8 @@ def run_property(mod, tier, seed, max_seconds=None, replay=None):
 
     # --- classify violations: listed finding or new
     new, listed = [], []
-    for sig, (case, msg, cnt) in viols.items():
+    for (sig, hit), (case, msg, cnt) in viols.items():
         dg = digest(case)
-        hit = None
-        for key, what in known:
-            if key == 'case:' + dg or key == 'sig:' + sig:
-                hit = what
-                break
         (listed if hit else new).append((sig, case, msg, cnt, dg, hit))
 
     rdir = os.environ.get('MCX_EVIDENCE_DIR') or os.path.join(VERIF, 'replays')
@@ -277,8 +283,8 @@ def run_property(mod, tier, seed, max_seconds=None, replay=None):
     for l in out_lines:
         print(l)
     if replay:
-        for sig, (case, msg, cnt) in viols.items():
-            print('  replay result: %s: %s' % (sig, msg))
+        for (sig, hit), (case, msg, cnt) in viols.items():
+            print('  replay result: %s%s: %s' % (sig, ' [listed known finding]' if hit else '', msg))
         if not viols:
             print('  replay result: property holds on this case')
     return 1 if nviol else 0
